@@ -652,7 +652,8 @@ func init() {
 	}
 	stop := func(fr *frame, args []value) value {
 		vt := timerOf(fr, args[0])
-		was := !vt.fired && !vt.stopped
+		// Go 1.23+ semantics: a fired timer whose value has not been received yet still counts as active
+		was := (!vt.fired && !vt.stopped) || (vt.ch != nil && len(vt.ch.buf) > 0)
 		vt.stopped = true
 		if vt.ch != nil {
 			vt.ch.buf = nil
@@ -663,7 +664,7 @@ func init() {
 	externals["(*time.Ticker).Stop"] = func(fr *frame, args []value) value { stop(fr, args); return nil }
 	externals["(*time.Timer).Reset"] = func(fr *frame, args []value) value {
 		vt := timerOf(fr, args[0])
-		was := !vt.fired && !vt.stopped
+		was := (!vt.fired && !vt.stopped) || (vt.ch != nil && len(vt.ch.buf) > 0)
 		vt.fired, vt.stopped = false, false
 		if vt.ch != nil {
 			vt.ch.buf = nil
